@@ -362,7 +362,19 @@ def arith(op, a, b):
 def sabs(x):
     if not isinstance(x, SReal):
         return abs(x)
-    return mk(z3.If(x.t >= 0, x.t, -x.t))
+    r = mk(z3.If(x.t >= 0, x.t, -x.t))
+    if isinstance(r, SReal):
+        # |x| is the non-negative square root of x^2: same normal-form rule
+        from . import poly
+        rid = r.t.get_id()
+        if rid not in poly.SQRT_DEFS:
+            try:
+                poly.ratfun(r.t)
+                n, d = poly.ratfun(x.t)
+                poly.SQRT_DEFS[rid] = (poly.p_mul(n, n), poly.p_mul(d, d))
+            except Exception:
+                pass
+    return r
 
 
 def sfloor(x):
